@@ -163,12 +163,22 @@ Section Exec.
       | Dds requested =>
         (* dds.load: a path produced by the running evaluation is read through requested_paths (its blob is
            already stored, the path is committed only at the end); any other path through the committed paths *)
-        match (match blookup p requested with Some k => Some k | None => blookup p (s_paths s) end) with
-        | None => (inl (DdsErr "NONE"), s)
+        match blookup p requested with
         | Some key =>
+          (* fix F33/F34: a path that this evaluation is expected to produce but that has no blob yet (kept later, or by
+             a function that is mentioned but never called) is an error, not None *)
           match blookup key (s_blobs s) with
           | Some v => (inr (add_local en v), s)
-          | None => (inr (add_local en (RVal VNone)), s)
+          | None => (inl (DdsErr "LOAD_BEFORE_STORE"), s)
+          end
+        | None =>
+          match blookup p (s_paths s) with
+          | None => (inl (DdsErr "NONE"), s)
+          | Some key =>
+            match blookup key (s_blobs s) with
+            | Some v => (inr (add_local en v), s)
+            | None => (inr (add_local en (RVal VNone)), s)
+            end
           end
         end
       end
